@@ -72,21 +72,19 @@ theorem enumRule_okP (c c0 : Cur) (en : Str) (ns : List Str) (post : Str) (Q : C
   rfl
 
 /-- the sticky-note rule once its keyword - in whatever letter case - has been read -/
-theorem stickyNoteRule_from (c c0 c1 : Cur) (n0 : Char) (ns t post : Str) (Q : Cur → Prop)
+theorem stickyNoteRule_from (c c0 c1 : Cur) (nm name t post : Str) (Q : Cur → Prop)
     (hb : cBefore c = .ok [] c0) (hk : clit "note" c0 = .ok () c1)
-    (hr1 : c1.rest = ' ' :: ((n0 :: ns) ++ ' ' :: '{' :: '\n' :: ' ' :: ' ' :: ' ' :: ' ' ::
+    (hr1 : c1.rest = ' ' :: (nm ++ ' ' :: '{' :: '\n' :: ' ' :: ' ' :: ' ' :: ' ' ::
       '\'' :: (prepareTextForDbml t ++ '\'' :: '\n' :: '}' :: post))) (hp1 : c1.pastEnd = false)
-    (hname : (n0 :: ns).all isNameChar = true)
+    (hname : Spells nm name)
     (h1 : C13.oneLine t = true) (h3 : hasTriple t = false)
     (hend : ∀ c7 : Cur, c7.rest = post → c7.pastEnd = false → ∃ c9, endRule c7 = .ok () c9 ∧ Q c9) :
-    ∃ c9, stickyNoteRule c = .ok { name := n0 :: ns, text := t } c9 ∧ Q c9 := by
-  have hn0 : isNameChar n0 = true := by simp only [List.all_cons, Bool.and_eq_true] at hname; exact hname.1
-  obtain ⟨hn0w, hn0n, hn0s⟩ := nameChar_facts n0 hn0
-  have hN1 : Next c1 n0 _ := skipWs_rest_spaces c1 1 n0 _ (by rw [hr1]; rfl) hn0w
+    ∃ c9, stickyNoteRule c = .ok { name := name, text := t } c9 ∧ Q c9 := by
+  obtain ⟨_, ⟨n0, nr, hn0e, hn0w, hn0n, hn0s⟩, hspell⟩ := hname
+  have hN1 : Next c1 n0 _ := skipWs_rest_spaces c1 1 n0 _ (by rw [hr1, hn0e]; rfl) hn0w
   obtain ⟨q3, q4⟩ := quiet_of_next c1 n0 _ hN1 hn0n hn0s
   have hs1 : skipNl c1 = .ok () c1 := skipNl_stay c1 q3 q4
-  obtain ⟨c2, hnm, hr2, hp2⟩ := name_ok c1 (n0 :: ns) _ hN1 (by simp) hname
-    (by intro x hx; simp at hx; subst hx; decide) hp1
+  obtain ⟨c2, hnm, hr2, hp2⟩ := hspell c1 _ (by rw [hn0e]; exact hN1) hp1
   have hN2 : Next c2 '{' _ := skipWs_rest_spaces c2 1 '{' _ (by rw [hr2]; rfl) (by decide)
   obtain ⟨q5, q6⟩ := quiet_of_next c2 '{' _ hN2 (by decide) (by decide)
   have hs2 : skipNl c2 = .ok () c2 := skipNl_stay c2 q5 q6
@@ -170,7 +168,7 @@ theorem stickyNoteRule_okP (c c0 : Cur) (name t post : Str) (Q : Cur → Prop)
   have hN : Next c0 'N' _ := skipWs_rest_head c0 'N' _ (by rw [hc]) (by decide)
   obtain ⟨c1, hk, hr1, hp1⟩ := clit_ok "note" c0 ['N', 'o', 't', 'e'] _ hN
     (by decide) (by simp [startsWithCaseless]; decide) hp
-  exact stickyNoteRule_from c c0 c1 n0 ns t post Q hb hk hr1 hp1 hname h1 h3 hend
+  exact stickyNoteRule_from c c0 c1 (n0 :: ns) (n0 :: ns) t post Q hb hk hr1 hp1 (spells_bare _ (by simp) hname) h1 h3 hend
 
 /-- a sticky note the round trip covers: a bare name and one plain normalised line without a triple quote -/
 def StickyOK (s : Sticky) : Prop :=
